@@ -50,7 +50,7 @@ def _ops(keys, values, cid=None):
                 ('setdefault', k, values[1]), ('setitem', k, values[0]), ('setitem', k, values[3])]
         if cid not in ('dict', 'null'):
             ops.append(('setitem_bad', k))      # in memory every value "encodes
-    ops += [('len',), ('keys',), ('values',), ('items',), ('iter',), ('popitem',), ('clear',), ('copy',), ('copy_named',), ('eq',),
+    ops += [('len',), ('keys',), ('values',), ('items',), ('iter',), ('popitem',), ('clear',), ('copy',), ('copy_named',), ('eq',), ('eq_none',),
             ('update', ((keys[0], values[2]), (keys[-1], values[4]))), ('update_kw',),
             ('popkeys', (keys[0], keys[1])), ('popkeys', (keys[0], keys[1]), 'dflt')]
     return ops
@@ -93,7 +93,7 @@ def apply_model(m, op):
             return 'ANY-ITEM', m
         if name == 'clear':
             return None, {}
-        if name in ('copy', 'copy_named', 'eq'):
+        if name in ('copy', 'copy_named', 'eq', 'eq_none'):
             return True, m
         if name == 'update':
             m.update(dict(op[1]))
@@ -177,6 +177,21 @@ def apply_real(a, op, ctx):
             other['b'] = 'different'
             same = same and (a != other or AR.contents(a) == AR.contents(other))
         return bool(same)
+    if name == 'eq_none':
+        # same length, different key sets, the differing keys hold None: a dict comparison says "not equal"
+        cur = AR.contents(a)
+        nk = [k for k, v in cur.items() if v is None]
+        if not nk or ctx['cid'] == 'null':
+            return True
+        other = AR.open_archive(ctx['cid'], ctx['root'], 'eqpeer2')
+        other.clear()
+        for k, v in cur.items():
+            if k != nk[0]:
+                other[k] = v
+        other['b' if nk[0] != 'b' else 'a'] = None
+        if AR.contents(other) == cur:
+            return True
+        return bool(a != other) and not bool(a == other)
     if name == 'update':
         return a.update(dict(op[1]))
     if name == 'update_kw':
@@ -214,7 +229,7 @@ def run_op(a, model, op, ctx):
     except Exception as e:      # noqa
         after = ('unreadable', e.__class__.__name__, str(e)[:80])
     if after != m2:
-        bad.append(('contents', 'after %r on %r the archive holds %r, a dict would hold %r' % (op, model, after, m2)))
+        bad.append(('contents', 'after %r on %r the archive holds %s, a dict would hold %r' % (op, model, _sr(after), m2)))
     try:
         n = len(a)
         if isinstance(after, dict) and n != len(after):
@@ -233,6 +248,15 @@ def run_op(a, model, op, ctx):
 
 def _r(x):
     return 'KeyError' if x is KeyError else x
+
+
+def _sr(x):
+    try:
+        return repr(x)
+    except Exception:
+        if isinstance(x, dict):
+            return '{%s}' % ', '.join('%s: %s' % (_sr(k), _sr(v)) for k, v in x.items())
+        return '<%s object whose repr raises>' % type(x).__name__
 
 
 def klass_of(cid, op, clause, model):
